@@ -72,12 +72,31 @@ pub enum Scan { Closed(Seq<char>, int), Bad(LexError), Open }     // decoded tex
 pub open spec fn lift(p: Seq<char>, s: Scan) -> Scan {
     match s { Scan::Closed(cs, e) => Scan::Closed(p + cs, e), o => o }
 }
-pub open spec fn scan(t: Seq<char>, i: int) -> Scan
+// the index of the brace that closes a slot: scanning from j with `d` braces open
+pub open spec fn slot_close(t: Seq<char>, j: int, d: int) -> Option<int>
+    decreases t.len() - j
+{
+    if j < 0 || j >= t.len() || d <= 0 { None }
+    else {
+        let d2 = d + (if t[j] == '{' { 1int } else if t[j] == '}' { -1int } else { 0int });
+        if d2 == 0 { Some(j) } else { slot_close(t, j + 1, d2) }
+    }
+}
+pub open spec fn scan(t: Seq<char>, i: int, interp: bool) -> Scan
     decreases t.len() - i
 {
     if i < 0 || i >= t.len() { Scan::Open }
     else if t[i] == '"' { Scan::Closed(Seq::empty(), i) }
-    else if t[i] == '$' { Scan::Bad(LexError::UnescapedDollar(loc_at(t, i))) }
+    else if t[i] == '$' {
+        if !interp { Scan::Bad(LexError::UnescapedDollar(loc_at(t, i))) }
+        // `${ .. }`: the slot's source text is kept verbatim, up to the brace matching its opening one
+        else if i + 1 >= t.len() { Scan::Open }
+        else if t[i + 1] != '{' { Scan::Bad(LexError::InvalidInterpolationStart(loc_at(t, i + 1), t[i + 1])) }
+        else { match slot_close(t, i + 2, 1) {
+            None => Scan::Open,
+            Some(e) => if i + 2 <= e < t.len() { lift(t.subrange(i, e + 1), scan(t, e + 1, interp)) } else { Scan::Open },
+        } }
+    }
     else if t[i] == '\\' {
         if i + 1 >= t.len() { Scan::Open }
         else if t[i + 1] == 'x' {
@@ -87,18 +106,27 @@ pub open spec fn scan(t: Seq<char>, i: int) -> Scan
                     Some(a) => if i + 3 >= t.len() { Scan::Open } else {
                         match hex_value(t[i + 3]) {
                             None => Scan::Bad(LexError::InvalidHexChar(loc_at(t, i + 3), t[i + 3])),
-                            Some(b) => lift(seq![((a * 16 + b) as u8) as char], scan(t, i + 4)),
+                            Some(b) => lift(seq![((a * 16 + b) as u8) as char], scan(t, i + 4, interp)),
                         }
                     },
                 }
             }
         } else {
             match esc_value(t[i + 1]) {
-                Some(c) => lift(seq![c], scan(t, i + 2)),
+                Some(c) => lift(seq![c], scan(t, i + 2, interp)),
                 None => Scan::Bad(LexError::InvalidEscapeChar(loc_at(t, i + 1), t[i + 1])),
             }
         }
-    } else { lift(seq![t[i]], scan(t, i + 1)) }
+    } else { lift(seq![t[i]], scan(t, i + 1, interp)) }
+}
+pub proof fn lemma_slot_close_bounds(t: Seq<char>, j: int, d: int)
+    ensures slot_close(t, j, d) matches Some(e) ==> j <= e < t.len(),
+    decreases t.len() - j
+{
+    if !(j < 0 || j >= t.len() || d <= 0) {
+        let d2 = d + (if t[j] == '{' { 1int } else if t[j] == '}' { -1int } else { 0int });
+        if d2 != 0 { lemma_slot_close_bounds(t, j + 1, d2); }
+    }
 }
 pub proof fn lemma_lift_lift(p: Seq<char>, q: Seq<char>, s: Scan)
     ensures lift(p, lift(q, s)) == lift(p + q, s),
@@ -106,19 +134,26 @@ pub proof fn lemma_lift_lift(p: Seq<char>, q: Seq<char>, s: Scan)
     match s { Scan::Closed(cs, e) => { assert(p + (q + cs) =~= (p + q) + cs); }, _ => {} }
 }
 pub open spec fn lit_start(t: Seq<char>, p0: int) -> int { if p0 < t.len() { p0 + 1 } else { p0 } }
-pub open spec fn lit_scan(t: Seq<char>, p0: int) -> Scan { scan(t, lit_start(t, p0)) }
-// an interpolated literal whose text has a `$` that starts a slot: its decoding is the slot contract's business (slots_ok), not this scan's
-pub open spec fn has_slot(t: Seq<char>, p0: int) -> bool { lit_scan(t, p0) matches Scan::Bad(e) && e is UnescapedDollar }
+pub open spec fn lit_scan(t: Seq<char>, p0: int, interp: bool) -> Scan { scan(t, lit_start(t, p0), interp) }
 // where the decoding unit in progress started, given the scanner state
-spec fn scan_inv(t: Seq<char>, start: int, pos: int, state: StrScanState, first_hex: Option<u8>, chars: Seq<char>) -> bool {
+spec fn scan_inv(t: Seq<char>, start: int, pos: int, state: StrScanState, first_hex: Option<u8>, chars: Seq<char>, interp: bool,
+                 cur_start: int, count: int) -> bool {
     match state {
-        StrScanState::None => scan(t, start) == lift(chars, scan(t, pos)),
-        StrScanState::Escape => pos >= 1 && t[pos - 1] == '\\' && scan(t, start) == lift(chars, scan(t, pos - 1)),
+        StrScanState::None => scan(t, start, interp) == lift(chars, scan(t, pos, interp)),
+        StrScanState::Escape => pos >= 1 && t[pos - 1] == '\\' && scan(t, start, interp) == lift(chars, scan(t, pos - 1, interp)),
         StrScanState::Hex => match first_hex {
-            None => pos >= 2 && t[pos - 2] == '\\' && t[pos - 1] == 'x' && scan(t, start) == lift(chars, scan(t, pos - 2)),
-            Some(n) => pos >= 3 && t[pos - 3] == '\\' && t[pos - 2] == 'x' && hex_value(t[pos - 1]) == Some(n) && scan(t, start) == lift(chars, scan(t, pos - 3)),
+            None => pos >= 2 && t[pos - 2] == '\\' && t[pos - 1] == 'x' && scan(t, start, interp) == lift(chars, scan(t, pos - 2, interp)),
+            Some(n) => pos >= 3 && t[pos - 3] == '\\' && t[pos - 2] == 'x' && hex_value(t[pos - 1]) == Some(n) && scan(t, start, interp) == lift(chars, scan(t, pos - 3, interp)),
         },
-        StrScanState::Interpolate => false,
+        // inside `${ .. }`: u is where the `$` sits in the source; everything since is copied verbatim
+        StrScanState::Interpolate => ({
+            let u = pos - (chars.len() - cur_start);
+            &&& interp && 0 <= cur_start < chars.len() && start <= u < pos && t[u] == '$'
+            &&& chars.subrange(cur_start, chars.len() as int) == t.subrange(u, pos)
+            &&& scan(t, start, interp) == lift(chars.subrange(0, cur_start), scan(t, u, interp))
+            &&& (pos == u + 1 ==> count == 0)
+            &&& (pos > u + 1 ==> t[u + 1] == '{' && count >= 1 && slot_close(t, u + 2, 1) == slot_close(t, pos, count))
+        }),
     }
 }
 
@@ -179,12 +214,12 @@ SPEC = r"""
         (r matches Ok(Token::StrLiteral(s))) ==> !interpolate,
         (r matches Ok(Token::InterpStrLiteral(s, slots))) ==> interpolate,
         r is Ok ==> (r matches Ok(Token::StrLiteral(s)) || r matches Ok(Token::InterpStrLiteral(s, slots))), // [C15:a_string_literal_lexes_to_a_string_token]
-        (lit_scan(old(self).scanner.text(), old(self).scanner.pos()) is Closed)
-            ==> ((if interpolate { r matches Ok(Token::InterpStrLiteral(s, slots)) && slots@.len() == 0 && s@ == lit_scan(old(self).scanner.text(), old(self).scanner.pos())->Closed_0 }
-                  else { r matches Ok(Token::StrLiteral(s)) && s@ == lit_scan(old(self).scanner.text(), old(self).scanner.pos())->Closed_0 })
-                 && final(self).scanner.pos() == lit_scan(old(self).scanner.text(), old(self).scanner.pos())->Closed_1 + 1), // [C09_C15:a_string_literal_denotes_exactly_its_characters_with_the_documented_escapes_decoded_and_ends_at_its_closing_quote]
-        (lit_scan(old(self).scanner.text(), old(self).scanner.pos()) is Bad && !(interpolate && has_slot(old(self).scanner.text(), old(self).scanner.pos())))
-            ==> r == Err::<Token, LexError>(lit_scan(old(self).scanner.text(), old(self).scanner.pos())->Bad_0), // [C15_C18:an_invalid_escape_or_hex_digit_or_an_unescaped_dollar_is_a_reported_error_at_the_position_of_that_character]
+        (lit_scan(old(self).scanner.text(), old(self).scanner.pos(), interpolate) is Closed)
+            ==> ((if interpolate { r matches Ok(Token::InterpStrLiteral(s, slots)) && s@ == lit_scan(old(self).scanner.text(), old(self).scanner.pos(), interpolate)->Closed_0 }
+                  else { r matches Ok(Token::StrLiteral(s)) && s@ == lit_scan(old(self).scanner.text(), old(self).scanner.pos(), interpolate)->Closed_0 })
+                 && final(self).scanner.pos() == lit_scan(old(self).scanner.text(), old(self).scanner.pos(), interpolate)->Closed_1 + 1), // [C09_C15:a_string_literal_denotes_exactly_its_characters_with_the_documented_escapes_decoded_slots_kept_verbatim_and_ends_at_its_closing_quote]
+        (lit_scan(old(self).scanner.text(), old(self).scanner.pos(), interpolate) is Bad)
+            ==> r == Err::<Token, LexError>(lit_scan(old(self).scanner.text(), old(self).scanner.pos(), interpolate)->Bad_0), // [C15_C18:an_invalid_escape_or_hex_digit_an_unescaped_dollar_or_a_malformed_slot_start_is_a_reported_error_at_the_position_of_that_character]
         final(self).scanner.text() == old(self).scanner.text(),
         0 <= final(self).scanner.pos() <= old(self).scanner.text().len(), // [C03:the_scanner_never_moves_past_the_end_of_the_input]
 """
@@ -223,6 +258,7 @@ def build(read):
                 0 <= interpolation_brace_count <= chars@.len(),
                 0 <= self.scanner.pos() <= self.scanner.text().len(),
                 chars@.len() <= self.scanner.pos(),
+                lit_start(old(self).scanner.text(), old(self).scanner.pos()) + chars@.len() <= self.scanner.pos(),
                 first_hex_char matches Some(x) ==> x < 16,
                 !(state is Hex) ==> first_hex_char is None,
                 slots_ok(chars@, interpolation_slots@),
@@ -234,8 +270,7 @@ def build(read):
                     && (forall|j: int| cur_interpolation_start + 1 < j <= chars@.len() ==> #[trigger] depth(chars@, cur_interpolation_start + 1, j) > 0)
                     && (cur_interpolation_start + 1 < chars@.len() ==> chars@[cur_interpolation_start + 1] == '{'),
                 !interpolate ==> interpolation_slots@.len() == 0,
-                (interpolate && has_slot(old(self).scanner.text(), old(self).scanner.pos())) || scan_inv(self.scanner.text(), lit_start(old(self).scanner.text(), old(self).scanner.pos()), self.scanner.pos(), state, first_hex_char, chars@), // [C09_C15:the_text_decoded_so_far_is_the_decoding_of_the_source_read_so_far]
-                !(interpolate && has_slot(old(self).scanner.text(), old(self).scanner.pos())) ==> interpolation_slots@.len() == 0,
+                scan_inv(self.scanner.text(), lit_start(old(self).scanner.text(), old(self).scanner.pos()), self.scanner.pos(), state, first_hex_char, chars@, interpolate, cur_interpolation_start as int, interpolation_brace_count as int), // [C09_C15:the_text_decoded_so_far_is_the_decoding_of_the_source_read_so_far]
                 !(state is Interpolate) ==> interpolation_brace_count == 0,
             decreases self.scanner.text().len() - self.scanner.pos(), // [C03:scanning_a_string_literal_terminates_every_iteration_consumes_a_character]"""}}
     loops[1]["body_start"] = "let ghost slots0 = interpolation_slots@;"
@@ -243,10 +278,10 @@ def build(read):
     # proof hints (ghost only): pushing a character leaves the brace depth of every prefix and the recorded slots untouched
     n = len(re.findall(r"chars\.push\(", f))
     f = re.sub(r"(\n)(\s*)(chars\.push\(([^;]*)\);)",
-               r"\1\2let ghost __c0 = chars@;\n\2\3\n\2proof { lemma_depth_push(__c0, chars@.last(), cur_interpolation_start as int + 1); lemma_slots_push(__c0, chars@.last(), slots0); lemma_lift_lift(__c0, seq![chars@.last()], scan(self.scanner.text(), self.scanner.pos())); assert(__c0 + seq![chars@.last()] =~= chars@); }", f)
+               r"\1\2let ghost __c0 = chars@;\n\2\3\n\2proof { lemma_depth_push(__c0, chars@.last(), cur_interpolation_start as int + 1); lemma_slots_push(__c0, chars@.last(), slots0); lemma_lift_lift(__c0, seq![chars@.last()], scan(self.scanner.text(), self.scanner.pos(), interpolate)); assert(__c0 + seq![chars@.last()] =~= chars@); if state is Interpolate { let st_ = cur_interpolation_start as int; let u_ = self.scanner.pos() - (chars@.len() - st_); assert(chars@.subrange(st_, chars@.len() as int) =~= self.scanner.text().subrange(u_, self.scanner.pos())); assert(chars@.subrange(0, st_) =~= __c0.subrange(0, st_)); if st_ == __c0.len() { assert(__c0.subrange(0, st_) =~= __c0); } } }", f)
     b.edits.append(f"annotation: a ghost snapshot and two lemma calls around each of the {n} `chars.push(..)` statements")
     # the push that ends a step inside a slot: connect the brace counter with the depth of the extended text
-    marker = "assert(__c0 + seq![chars@.last()] =~= chars@); }"
+    marker = "if st_ == __c0.len() { assert(__c0.subrange(0, st_) =~= __c0); } } }"
     k = f.rfind(marker)
     if k < 0:
         raise Undecided("next_str_literal: hint site lost")
@@ -259,6 +294,17 @@ def build(read):
                         assert(interpolation_brace_count == depth(chars@, st + 1, chars@.len() as int)); // [C15:the_brace_counter_is_the_nesting_depth_so_a_slot_ends_at_the_brace_matching_its_opening_one]
                         assert(slots_ok(chars@, slots0));
                         if interpolation_brace_count == 0 { assert(slot_ok(chars@, interpolation_slots@.last())); } // [C15_C02:a_recorded_slot_spans_dollar_brace_to_the_matching_closing_brace_of_the_decoded_text]
+                        // the source side: the slot closes in the source exactly where the counter returns to zero
+                        let tx = self.scanner.text();
+                        let p1 = self.scanner.pos();
+                        let u = p1 - (chars@.len() - st);
+                        assert(chars@.subrange(st, chars@.len() as int) =~= tx.subrange(u, p1));
+                        assert(chars@.subrange(0, st) =~= __c0.subrange(0, st));
+                        if state is None {
+                            assert(slot_close(tx, u + 2, 1) == Some(p1 - 1));
+                            lemma_lift_lift(chars@.subrange(0, st), tx.subrange(u, p1), scan(tx, p1, interpolate));
+                            assert(chars@ =~= chars@.subrange(0, st) + tx.subrange(u, p1));
+                        }
                     }"""
     f = f[:k + len(marker)] + extra + f[k + len(marker):]
     b.text = assemble([
@@ -290,6 +336,8 @@ def replays(failed):
            exp("true\ntrue\nfalse\n"))
     yield ("hex escapes are base 16", 'print("' + bs + 'x4a" == "J")\n', exp("true\n"))
     yield ("escapes in an interpolated literal without slots are decoded the same way", 'print($"a' + bs + 'rb' + bs + 'x4A' + bs + '$" == "a' + bs + 'x0dbJ' + bs + '$")\n', exp("true\n"))
+    yield ("a slot may contain a nested interpolated string and an escaped dollar", 'name := "x"\nprint($"hi ${$"<${name}>"}!")\nprint($"${"' + bs + '$" + name}")\n', exp("hi <x>!\n$x\n"))
+    yield ("a slot must start with a brace", 'print($"a$b")\n', exp(err=":1:11: interpolation slots start with"))
     yield ("hex digits may be upper case", 'print("' + bs + 'x4A' + bs + 'x7E" == "J~")\n', exp("true\n"))
     yield ("an unknown escape is an error at that character", 'print("' + bs + 't")\n', exp(err=":1:9: 't' is not a valid escape character"))
     yield ("an invalid hex digit is an error at that character", 'print("' + bs + 'x4g")\n', exp(err=":1:11: 'g' is not a valid hex character"))
